@@ -51,4 +51,536 @@ theorem step_inv (s : Mapping.State) (o : Op) (h : Inv s) : Inv (Mapping.step s 
 
 end Mapping
 
+/-! ### the commit-protocol contract of a storage -/
+
+structure Contract (M : Machine) where
+  Core : Type
+  Obs : Type
+  core : M.σ → Core
+  obs : M.σ → Obs
+  Inv : M.σ → Prop
+  /-- the call reaches the commit point -/
+  commits : M.σ → Op → Prop
+  commits_finish : ∀ s o, commits s o → ∃ t, o = .finish t
+  step_core : ∀ s o, ¬ commits s o → core (M.step s o).1 = core s
+  step_inv : ∀ s o, Inv s → Inv (M.step s o).1
+  usable_core : ∀ s s', core s' = core s → M.usable s' = M.usable s
+  usable_mono : ∀ s o, M.usable (M.step s o).1 = true → M.usable s = true
+  begin_txn : ∀ s t tid st ul dl el, Inv s → M.usable s = true → M.txn s = none →
+    M.txn (M.step s (.begin t tid st ul dl el)).1 = some t
+  abort_txn : ∀ s t, M.usable s = true → M.txn s = some t → M.txn (M.step s (.abort t)).1 = none
+  finish_out : ∀ s t, Inv s → M.usable s = true → M.txn s = some t →
+    ((M.step s (.finish t)).2 = .ok → M.txn (M.step s (.finish t)).1 = none) ∧
+    ((M.step s (.finish t)).2 = .misuse → M.txn (M.step s (.finish t)).1 = some t) ∧
+    ((M.step s (.finish t)).2 ≠ .ok → (M.step s (.finish t)).2 ≠ .misuse →
+      M.usable (M.step s (.finish t)).1 = false)
+  other_txn : ∀ s o, (∀ t tid st ul dl el, o ≠ .begin t tid st ul dl el) → (∀ t, o ≠ .abort t) →
+    (∀ t, o ≠ .finish t) → M.txn (M.step s o).1 = M.txn s
+  idle_lock : ∀ s, Inv s → M.usable s = true → M.txn s = none → M.lockFree s = true
+  obs_eq : ∀ s s', Inv s → Inv s' → M.usable s = true → M.txn s = none → M.txn s' = none →
+    core s' = core s → obs s' = obs s
+  wrong_vote : ∀ s t', Inv s → M.usable s = true → M.txn s ≠ some t' →
+    (M.step s (.vote t')).2 = .errTxn ∧ obs (M.step s (.vote t')).1 = obs s
+
+namespace Contract
+variable {M : Machine}
+
+def NoCommit (C : Contract M) : M.σ → List Op → Prop
+  | _, [] => True
+  | s, o :: os => ¬ C.commits s o ∧ NoCommit C (M.step s o).1 os
+
+theorem step_usable (C : Contract M) (s : M.σ) (o : Op) (h : ¬ C.commits s o) :
+    M.usable (M.step s o).1 = M.usable s := C.usable_core _ _ (C.step_core s o h)
+
+theorem run_inv (C : Contract M) (s : M.σ) (ops : List Op) (h : C.Inv s) : C.Inv (M.run s ops) := by
+  induction ops generalizing s with
+  | nil => exact h
+  | cons o os ih => exact ih _ (C.step_inv s o h)
+
+theorem run_core (C : Contract M) (s : M.σ) (ops : List Op) (h : C.NoCommit s ops) :
+    C.core (M.run s ops) = C.core s := by
+  induction ops generalizing s with
+  | nil => rfl
+  | cons o os ih =>
+    show C.core (M.run (M.step s o).1 os) = _
+    rw [ih _ h.2, C.step_core s o h.1]
+
+theorem abort_not_commit (C : Contract M) (s : M.σ) (t : TxnId) : ¬ C.commits s (.abort t) := by
+  intro h; obtain ⟨t', h'⟩ := C.commits_finish _ _ h; cases h'
+
+theorem abortCurrent_inv (C : Contract M) (s : M.σ) (h : C.Inv s) : C.Inv (M.abortCurrent s) := by
+  unfold Machine.abortCurrent
+  split
+  · exact C.step_inv _ _ h
+  · exact h
+
+theorem abortCurrent_core (C : Contract M) (s : M.σ) : C.core (M.abortCurrent s) = C.core s := by
+  unfold Machine.abortCurrent
+  split
+  · exact C.step_core _ _ (C.abort_not_commit _ _)
+  · rfl
+
+theorem abortCurrent_txn (C : Contract M) (s : M.σ) (hu : M.usable s = true) : M.txn (M.abortCurrent s) = none := by
+  unfold Machine.abortCurrent
+  split
+  · rename_i t ht; exact C.abort_txn s t hu ht
+  · assumption
+
+/-- C05 for any storage that meets the contract: after any calls that did not reach the commit
+    point, the mandated abort restores the observable state, frees every commit lock and leaves
+    the storage usable -/
+theorem abort_restores (C : Contract M) (s : M.σ) (ops : List Op) (h : C.Inv s) (hu : M.usable s = true)
+    (ht : M.txn s = none) (hn : C.NoCommit s ops) :
+    C.obs (M.abortCurrent (M.run s ops)) = C.obs s ∧
+    M.lockFree (M.abortCurrent (M.run s ops)) = true ∧
+    M.usable (M.abortCurrent (M.run s ops)) = true := by
+  have hcore : C.core (M.abortCurrent (M.run s ops)) = C.core s := by
+    rw [C.abortCurrent_core, C.run_core s ops hn]
+  have hu1 : M.usable (M.run s ops) = true := by
+    rw [C.usable_core _ _ (C.run_core s ops hn)]; exact hu
+  have hu2 : M.usable (M.abortCurrent (M.run s ops)) = true := by
+    rw [C.usable_core _ _ hcore]; exact hu
+  have hi := C.abortCurrent_inv _ (C.run_inv s ops h)
+  have htx := C.abortCurrent_txn _ hu1
+  exact ⟨C.obs_eq s _ h hi hu ht htx hcore, C.idle_lock _ hi hu2 htx, hu2⟩
+
+end Contract
+
+/-! ### FileStorage meets the contract -/
+
+theorem doStore_txn (s : State) (t oid ser dlen tag blob) :
+    (doStore s t oid ser dlen tag blob).1.txn = s.txn := by
+  unfold doStore
+  repeat' split
+  all_goals first
+    | rfl
+    | exact (stage_nextpos _ _ _ _ _ _).2
+
+theorem doDelete_txn (s : State) (t oid ser) : (doDelete s t oid ser).1.txn = s.txn := by
+  unfold doDelete
+  repeat' split
+  all_goals first
+    | rfl
+    | exact (stage_nextpos _ _ _ _ _ _).2
+
+theorem doVote_txn (s : State) (t) : (doVote s t).1.txn = s.txn := by
+  unfold doVote
+  simp only []
+  repeat' split
+  all_goals rfl
+
+theorem file_other_txn (s : State) (o : Op) (h1 : ∀ t tid st ul dl el, o ≠ .begin t tid st ul dl el)
+    (h2 : ∀ t, o ≠ .abort t) (h3 : ∀ t, o ≠ .finish t) : (step s o).1.txn = s.txn := by
+  unfold step
+  split
+  · rfl
+  · cases o with
+    | fault k => rfl
+    | «begin» t tid st ul dl el => exact absurd rfl (h1 t tid st ul dl el)
+    | abort t => exact absurd rfl (h2 t)
+    | finish t => exact absurd rfl (h3 t)
+    | store t oid ser dlen tag => exact doStore_txn _ _ _ _ _ _ _
+    | storeBlob t oid ser dlen tag => exact doStore_txn _ _ _ _ _ _ _
+    | delete t oid ser => exact doDelete_txn _ _ _ _
+    | vote t => exact doVote_txn _ _
+
+theorem file_begin_txn (s : State) (t tid st ul dl el) (h : Inv s) (hc : s.closed = false)
+    (ht : s.txn = none) : (step s (.begin t tid st ul dl el)).1.txn = some t := by
+  have hl := ((h hc).1 ht).1
+  simp only [step, hc, doBegin, ht, hl]
+  repeat' split
+  all_goals first
+    | rfl
+    | (rename_i hh; simp at hh; done)
+
+theorem file_finish_out (s : State) (t : TxnId) (hc : s.closed = false) (ht : s.txn = some t) :
+    ((step s (.finish t)).2.2 = .ok → (step s (.finish t)).1.txn = none) ∧
+    ((step s (.finish t)).2.2 = .misuse → (step s (.finish t)).1.txn = some t) ∧
+    ((step s (.finish t)).2.2 ≠ .ok → (step s (.finish t)).2.2 ≠ .misuse →
+      (!(step s (.finish t)).1.closed) = false) := by
+  simp only [step, hc, doFinish, ht]
+  repeat' split
+  all_goals simp_all
+
+def fileContract : Contract fileMachine where
+  Core := Core
+  Obs := Obs
+  core := core
+  obs := obs
+  Inv := Inv
+  commits := commits
+  commits_finish := by
+    intro s o h; cases o <;> simp only [commits] at h
+    exact ⟨_, rfl⟩
+  step_core := step_core
+  step_inv := step_inv
+  usable_core := by
+    intro s s' h
+    have := congrArg Core.closed h
+    simp only [core] at this
+    simp [fileMachine, this]
+  usable_mono := by
+    intro s o h
+    cases hc : s.closed with
+    | false => simp [fileMachine, hc]
+    | true =>
+      have : (TwoPC.step s o).1 = s := by unfold TwoPC.step; rw [if_pos hc]
+      have h' : (!(TwoPC.step s o).1.closed) = true := h
+      rw [this, hc] at h'
+      exact absurd h' (by simp)
+  begin_txn := by
+    intro s t tid st ul dl el h hu ht
+    exact file_begin_txn s t tid st ul dl el h (by simpa [fileMachine] using hu) ht
+  abort_txn := by
+    intro s t hu ht
+    exact (step_abort_txn s t (by simpa [fileMachine] using hu) ht).1
+  finish_out := by
+    intro s t _ hu ht
+    exact file_finish_out s t (by simpa [fileMachine] using hu) ht
+  other_txn := file_other_txn
+  idle_lock := by
+    intro s h hu ht
+    have := ((h (by simpa [fileMachine] using hu)).1 ht).1
+    simp [fileMachine, this]
+  obs_eq := by
+    intro s s' h h' hu ht ht' hcore
+    exact obs_eq_of_core s s' h h' (by simpa [fileMachine] using hu) ht ht' hcore
+  wrong_vote := by
+    intro s t' _ hu ht
+    have hc : s.closed = false := by simpa [fileMachine] using hu
+    have := wrong_txn_rejected s t' (.vote t') hc ht rfl
+    simp only [fileMachine, this]
+    exact ⟨trivial, rfl⟩
+
+/-! ### MappingStorage meets the contract -/
+
+theorem mapping_obs_idle (s : TwoPC.Mapping.State) (h : Mapping.Inv s) (ht : s.txn = none) :
+    TwoPC.Mapping.obs s = { txns := s.txns, cur := s.cur, ltid := s.ltid, blobFiles := s.blobs,
+                            stagingEmpty := true, lockFree := true, txnNone := true } := by
+  have h' := h.1 ht
+  simp [TwoPC.Mapping.obs, h', ht]
+
+def mappingContract : Contract mappingMachine where
+  Core := Mapping.Core
+  Obs := TwoPC.Mapping.Obs
+  core := Mapping.core
+  obs := TwoPC.Mapping.obs
+  Inv := Mapping.Inv
+  commits := Mapping.commits
+  commits_finish := by
+    intro s o h; cases o <;> simp only [Mapping.commits] at h
+    exact ⟨_, rfl⟩
+  step_core := Mapping.step_core
+  step_inv := Mapping.step_inv
+  usable_core := by intro s s' _; rfl
+  usable_mono := by intro s o _; rfl
+  begin_txn := by
+    intro s t tid st ul dl el h _ ht
+    have ht' : s.txn = none := ht
+    have hl := (h.1 ht').1
+    simp [mappingMachine, TwoPC.Mapping.step, TwoPC.Mapping.doBegin, ht', hl]
+  abort_txn := by
+    intro s t _ ht
+    have ht' : s.txn = some t := ht
+    simp [mappingMachine, TwoPC.Mapping.step, TwoPC.Mapping.doAbort, ht']
+  finish_out := by
+    intro s t _ _ ht
+    have ht' : s.txn = some t := ht
+    simp [mappingMachine, TwoPC.Mapping.step, TwoPC.Mapping.doFinish, ht']
+  other_txn := by
+    intro s o h1 h2 h3
+    cases o with
+    | «begin» t tid st ul dl el => exact absurd rfl (h1 t tid st ul dl el)
+    | abort t => exact absurd rfl (h2 t)
+    | finish t => exact absurd rfl (h3 t)
+    | fault k => rfl
+    | delete t oid ser => rfl
+    | vote t =>
+      simp only [mappingMachine, TwoPC.Mapping.step, TwoPC.Mapping.doVote]; split <;> rfl
+    | store t oid ser dlen tag =>
+      simp only [mappingMachine, TwoPC.Mapping.step, TwoPC.Mapping.doStore]
+      repeat' split
+      all_goals rfl
+    | storeBlob t oid ser dlen tag =>
+      simp only [mappingMachine, TwoPC.Mapping.step, TwoPC.Mapping.doStore]
+      repeat' split
+      all_goals rfl
+  idle_lock := by
+    intro s h _ ht
+    have ht' : s.txn = none := ht
+    have := (h.1 ht').1
+    simp [mappingMachine, this]
+  obs_eq := by
+    intro s s' h h' _ ht ht' hcore
+    rw [mapping_obs_idle s h ht, mapping_obs_idle s' h' ht']
+    simp only [Mapping.core, Mapping.Core.mk.injEq] at hcore
+    simp [hcore]
+  wrong_vote := by
+    intro s t' _ _ ht
+    have ht' : s.txn ≠ some t' := ht
+    simp [mappingMachine, TwoPC.Mapping.step, TwoPC.Mapping.doVote, ht']
+
+/-! ### DemoStorage over a storage that meets the contract meets it too -/
+
+namespace DemoC
+variable {M : Machine}
+
+def Inv (C : Contract M) (d : Demo.State M) : Prop :=
+  C.Inv d.changes ∧ (M.usable d.changes = true → M.txn d.changes = d.txn ∧ d.commitLock = d.txn)
+
+def commits (C : Contract M) (d : Demo.State M) : Op → Prop
+  | .finish t => d.txn = some t ∧ C.commits d.changes (.finish t)
+  | _ => False
+
+/-- changes' observation, DemoStorage._transaction is None, DemoStorage._commit_lock is free -/
+def obs (C : Contract M) (d : Demo.State M) : C.Obs × Bool × Bool :=
+  (C.obs d.changes, decide (d.txn = none), decide (d.commitLock = none))
+
+theorem changes_step (C : Contract M) (d : Demo.State M) (o : Op) :
+    (Demo.step d o).1.changes = d.changes ∨ (Demo.step d o).1.changes = (M.step d.changes o).1 := by
+  cases o <;> simp only [Demo.step, Demo.doBegin, Demo.doStore, Demo.doStoreBlob, Demo.doVote,
+    Demo.doFinish, Demo.doAbort]
+  all_goals repeat' split
+  all_goals first
+    | exact Or.inl rfl
+    | exact Or.inr rfl
+    | exact Or.inl trivial
+    | exact Or.inr trivial
+
+theorem not_commits (C : Contract M) (d : Demo.State M) (o : Op) (h : ¬ commits C d o)
+    (hch : (Demo.step d o).1.changes ≠ d.changes) : ¬ C.commits d.changes o := by
+  intro hc
+  obtain ⟨t, rfl⟩ := C.commits_finish _ _ hc
+  apply hch
+  simp only [Demo.step, Demo.doFinish]
+  split
+  · rfl
+  · rename_i ht
+    exfalso; apply h
+    exact ⟨by simpa using ht, hc⟩
+
+theorem step_core (C : Contract M) (d : Demo.State M) (o : Op) (h : ¬ commits C d o) :
+    C.core (Demo.step d o).1.changes = C.core d.changes := by
+  by_cases hch : (Demo.step d o).1.changes = d.changes
+  · rw [hch]
+  · rcases changes_step C d o with h1 | h1
+    · exact absurd h1 hch
+    · rw [h1]; exact C.step_core _ _ (not_commits C d o h hch)
+
+end DemoC
+
+namespace DemoC
+variable {M : Machine}
+
+theorem inv_delegate (C : Contract M) (d : Demo.State M) (o : Op) (h : Inv C d)
+    (h1 : ∀ t tid st ul dl el, o ≠ .begin t tid st ul dl el) (h2 : ∀ t, o ≠ .abort t)
+    (h3 : ∀ t, o ≠ .finish t) : Inv C { d with changes := (M.step d.changes o).1 } := by
+  refine ⟨C.step_inv _ _ h.1, ?_⟩
+  intro hu
+  have := h.2 (C.usable_mono _ _ hu)
+  show M.txn (M.step d.changes o).1 = d.txn ∧ d.commitLock = d.txn
+  rw [C.other_txn _ _ h1 h2 h3]
+  exact this
+
+theorem step_inv (C : Contract M) (d : Demo.State M) (o : Op) (h : Inv C d) :
+    Inv C (Demo.step d o).1 := by
+  cases o with
+  | fault k => exact inv_delegate C d _ h (by intros; simp) (by intros; simp) (by intros; simp)
+  | vote t => exact inv_delegate C d _ h (by intros; simp) (by intros; simp) (by intros; simp)
+  | delete t oid ser => exact h
+  | store t oid ser dlen tag =>
+    simp only [Demo.step, Demo.doStore]
+    repeat' split
+    all_goals first
+      | exact h
+      | exact inv_delegate C d _ h (by intros; simp) (by intros; simp) (by intros; simp)
+  | storeBlob t oid ser dlen tag =>
+    simp only [Demo.step, Demo.doStoreBlob]
+    repeat' split
+    all_goals first
+      | exact h
+      | exact inv_delegate C d _ h (by intros; simp) (by intros; simp) (by intros; simp)
+  | «begin» t tid st ul dl el =>
+    simp only [Demo.step, Demo.doBegin]
+    split
+    · exact h
+    · split
+      · exact h
+      · rename_i hl
+        refine ⟨C.step_inv _ _ h.1, ?_⟩
+        intro hu
+        have hu0 := C.usable_mono _ _ hu
+        have hd := h.2 hu0
+        have htx : d.txn = none := by rw [← hd.2]; exact hl
+        have hm : M.txn d.changes = none := by rw [hd.1]; exact htx
+        exact ⟨C.begin_txn _ t tid st ul dl el h.1 hu0 hm, rfl⟩
+  | abort t =>
+    simp only [Demo.step, Demo.doAbort]
+    split
+    · exact h
+    · rename_i ht
+      have ht' : d.txn = some t := by simpa using ht
+      refine ⟨C.step_inv _ _ h.1, ?_⟩
+      intro hu
+      have hu0 := C.usable_mono _ _ hu
+      have hd := h.2 hu0
+      exact ⟨C.abort_txn _ t hu0 (by rw [hd.1]; exact ht'), rfl⟩
+  | finish t =>
+    simp only [Demo.step, Demo.doFinish]
+    split
+    · exact h
+    · rename_i ht
+      have ht' : d.txn = some t := by simpa using ht
+      split
+      · rename_i hok
+        refine ⟨C.step_inv _ _ h.1, ?_⟩
+        intro hu
+        have hu0 := C.usable_mono _ _ hu
+        have hd := h.2 hu0
+        exact ⟨(C.finish_out _ t h.1 hu0 (by rw [hd.1]; exact ht')).1 hok, rfl⟩
+      · rename_i hmis
+        refine ⟨C.step_inv _ _ h.1, ?_⟩
+        intro hu
+        have hu0 := C.usable_mono _ _ hu
+        have hd := h.2 hu0
+        refine ⟨?_, hd.2⟩
+        show M.txn (M.step d.changes (Op.finish t)).1 = d.txn
+        rw [(C.finish_out _ t h.1 hu0 (by rw [hd.1]; exact ht')).2.1 hmis, ht']
+      · rename_i hnok hnmis
+        refine ⟨C.step_inv _ _ h.1, ?_⟩
+        intro hu
+        exfalso
+        have hu0 := C.usable_mono _ _ hu
+        have hd := h.2 hu0
+        have := (C.finish_out _ t h.1 hu0 (by rw [hd.1]; exact ht')).2.2 (by simpa using hnok) (by simpa using hnmis)
+        have hu' : M.usable (M.step d.changes (Op.finish t)).1 = true := hu
+        rw [this] at hu'
+        exact absurd hu' (by simp)
+
+end DemoC
+
+namespace DemoC
+variable {M : Machine}
+
+theorem finish_out (C : Contract M) (d : Demo.State M) (t : TxnId) (hi : Inv C d)
+    (hu : M.usable d.changes = true) (ht : d.txn = some t) :
+    ((Demo.step d (.finish t)).2 = .ok → (Demo.step d (.finish t)).1.txn = none) ∧
+    ((Demo.step d (.finish t)).2 = .misuse → (Demo.step d (.finish t)).1.txn = some t) ∧
+    ((Demo.step d (.finish t)).2 ≠ .ok → (Demo.step d (.finish t)).2 ≠ .misuse →
+      M.usable (Demo.step d (.finish t)).1.changes = false) := by
+  have hm : M.txn d.changes = some t := by rw [(hi.2 hu).1]; exact ht
+  have hf := C.finish_out _ t hi.1 hu hm
+  simp only [Demo.step, Demo.doFinish, ht, ne_eq, not_true_eq_false, ite_false]
+  split
+  · simp
+  · simp [ht]
+  · rename_i hnok hnmis
+    refine ⟨fun h => absurd h (by simpa using hnok), fun h => absurd h (by simpa using hnmis), ?_⟩
+    intro _ _
+    exact hf.2.2 (by simpa using hnok) (by simpa using hnmis)
+
+theorem other_txn (d : Demo.State M) (o : Op) (h1 : ∀ t tid st ul dl el, o ≠ .begin t tid st ul dl el)
+    (h2 : ∀ t, o ≠ .abort t) (h3 : ∀ t, o ≠ .finish t) : (Demo.step d o).1.txn = d.txn := by
+  cases o with
+  | «begin» t tid st ul dl el => exact absurd rfl (h1 t tid st ul dl el)
+  | abort t => exact absurd rfl (h2 t)
+  | finish t => exact absurd rfl (h3 t)
+  | fault k => rfl
+  | delete t oid ser => rfl
+  | vote t => rfl
+  | store t oid ser dlen tag =>
+    simp only [Demo.step, Demo.doStore]
+    repeat' split
+    all_goals rfl
+  | storeBlob t oid ser dlen tag =>
+    simp only [Demo.step, Demo.doStoreBlob]
+    repeat' split
+    all_goals rfl
+
+end DemoC
+
+def demoContract {M : Machine} (C : Contract M) : Contract (demoMachine M) where
+  Core := C.Core
+  Obs := C.Obs × Bool × Bool
+  core := fun d => C.core d.changes
+  obs := DemoC.obs C
+  Inv := DemoC.Inv C
+  commits := DemoC.commits C
+  commits_finish := by
+    intro s o h; cases o <;> simp only [DemoC.commits] at h
+    exact ⟨_, rfl⟩
+  step_core := DemoC.step_core C
+  step_inv := DemoC.step_inv C
+  usable_core := by intro s s' h; exact C.usable_core _ _ h
+  usable_mono := by
+    intro d o h
+    rcases DemoC.changes_step C d o with h1 | h1
+    · show M.usable d.changes = true
+      rw [← h1]; exact h
+    · have h' : M.usable (Demo.step d o).1.changes = true := h
+      rw [h1] at h'
+      exact C.usable_mono _ _ h'
+  begin_txn := by
+    intro d t tid st ul dl el hi hu ht
+    have ht' : d.txn = none := ht
+    have hl : d.commitLock = none := by rw [(hi.2 hu).2]; exact ht'
+    simp [demoMachine, Demo.step, Demo.doBegin, ht', hl]
+  abort_txn := by
+    intro d t _ ht
+    have ht' : d.txn = some t := ht
+    simp [demoMachine, Demo.step, Demo.doAbort, ht']
+  finish_out := by
+    intro d t hi hu ht
+    exact DemoC.finish_out C d t hi hu ht
+  other_txn := DemoC.other_txn
+  idle_lock := by
+    intro d hi hu ht
+    have ht' : d.txn = none := ht
+    have hd := hi.2 hu
+    have hl : d.commitLock = none := by rw [hd.2]; exact ht'
+    have := C.idle_lock _ hi.1 hu (by rw [hd.1]; exact ht')
+    simp [demoMachine, hl, this]
+  obs_eq := by
+    intro d d' hi hi' hu ht ht' hcore
+    have h1 : d.txn = none := ht
+    have h2 : d'.txn = none := ht'
+    have hu' : M.usable d'.changes = true := by rw [C.usable_core _ _ hcore]; exact hu
+    have hd := hi.2 hu
+    have hd' := hi'.2 hu'
+    have e := C.obs_eq d.changes d'.changes hi.1 hi'.1 hu (by rw [hd.1]; exact h1)
+      (by rw [hd'.1]; exact h2) hcore
+    have l1 : d.commitLock = none := by rw [hd.2]; exact h1
+    have l2 : d'.commitLock = none := by rw [hd'.2]; exact h2
+    simp [DemoC.obs, e, h1, h2, l1, l2]
+  wrong_vote := by
+    intro d t' hi hu ht
+    have hm : M.txn d.changes ≠ some t' := by rw [(hi.2 hu).1]; exact ht
+    have hw := C.wrong_vote d.changes t' hi.1 hu hm
+    refine ⟨hw.1, ?_⟩
+    show DemoC.obs C (Demo.step d (Op.vote t')).1 = DemoC.obs C d
+    simp only [DemoC.obs, Demo.step, Demo.doVote, hw.2]
+    rfl
+
+/-! ### DemoStorage: calls with a foreign transaction, initial states -/
+
+theorem demo_wrong_txn {M : Machine} (d : Demo.State M) (t' : TxnId) (ht : d.txn ≠ some t') :
+    (∀ oid ser dlen tag, Demo.step d (.store t' oid ser dlen tag) = (d, .errTxn)) ∧
+    (∀ oid ser dlen tag, Demo.step d (.storeBlob t' oid ser dlen tag) = (d, .errTxn)) ∧
+    Demo.step d (.finish t') = (d, .errTxn) ∧
+    Demo.step d (.abort t') = (d, .ok) := by
+  simp [Demo.step, Demo.doStore, Demo.doStoreBlob, Demo.doFinish, Demo.doAbort, ht]
+
+theorem demo_inv_init {M : Machine} (C : Contract M) (c : M.σ) (base : List (Oid × Tid))
+    (hi : C.Inv c) (ht : M.txn c = none) : DemoC.Inv C ({ changes := c, base := base } : Demo.State M) :=
+  ⟨hi, fun _ => ⟨ht, rfl⟩⟩
+
+theorem reachable_inv (q : Option Nat) (ops : List Op) : Inv (run { quota := q } ops) :=
+  run_inv _ ops (by intro _; simp)
+
+instance decNoCommit : (s : State) → (ops : List Op) → Decidable (NoCommit s ops)
+  | _, [] => isTrue trivial
+  | s, o :: os =>
+    have := decNoCommit (step s o).1 os
+    inferInstanceAs (Decidable (¬ commits s o ∧ NoCommit (step s o).1 os))
+
 end Proofs.TwoPC
